@@ -223,7 +223,7 @@ def takeInside (g : Grid) (I : List Nat) (tk : Take) : Bool :=
     horizon, `prices` the full price data) -/
 def specStable (a : AssetSpec) (g : Grid) (I : List Nat) (prices : Prices) : Bool :=
   let contractOK (p : ContractP) (takes : Bool) : Bool :=
-    p.gridFree && sameForm p g (g.pick I) prices (pickPrices I prices) &&
+    p.gridFree && ((g.pick I).T == 0 || sameForm p g (g.pick I) prices (pickPrices I prices)) &&
     (if takes then (p.minTake ++ p.maxTake).all (takeInside g I) else true)
   match a.spec with
   | .simple p => contractOK p false
@@ -243,5 +243,28 @@ def splitHyps (specs : List AssetSpec) (ref : Grid) (cuts : List Int) (prices : 
   isPartition Is ref.T &&
   specs.all fun a => Is.all fun I =>
     specStable a (({ ref with df := a.df } : Grid).restrict a.start a.stop) I prices
+
+end EAO
+
+namespace EAO
+
+/-! ### the hypotheses of the general theorem `EAO.C14B.split_witness_of_banded` -/
+
+/-- an asset problem whose variables each belong to ONE step of the grid `0 .. T-1` (all mapping rows of a variable
+    sit at the same step, every variable has a mapping row), without boolean variables, with bounds for every
+    variable and rows over its own variables -/
+structure Banded (a : AssetProblem) (T : Nat) : Prop where
+  l_len     : a.l.length = a.n
+  u_len     : a.u.length = a.n
+  map_var   : ∀ m ∈ a.mapping, m.var < a.n
+  map_step  : ∀ m ∈ a.mapping, m.step < T
+  no_bool   : ∀ m ∈ a.mapping, m.isBool = false
+  same_step : ∀ m ∈ a.mapping, ∀ m' ∈ a.mapping, m.var = m'.var → m.step = m'.step
+  covered   : ∀ v, v < a.n → ∃ m ∈ a.mapping, m.var = v
+  rows_ok   : ∀ r ∈ a.rows, r.coeffs ≠ [] ∧ ∀ q ∈ r.coeffs, q.1 < a.n
+
+/-- no row of the asset reaches across a cut: the variables of every row sit at steps of one of the lists -/
+def RowsInside (a : AssetProblem) (Is : List (List Nat)) : Prop :=
+  ∀ r ∈ a.rows, ∃ I ∈ Is, ∀ q ∈ r.coeffs, q.1 ∈ a.keep I
 
 end EAO
